@@ -18,10 +18,11 @@ def handle (args : List String) : Option String :=
     let dl := if o.delivered.isEmpty then "-" else ",".intercalate (o.delivered.map XmppModel.Xml.hexF)
     pure s!"{encWritten o.out.written} {encStop o.out.result} {dl}"
   | "elem" :: mode :: ns :: lb :: jm :: toks :: [prog] => do
+    let ws := decWs ns
     let ns ← decNs ns
     let lb ← XmppModel.Xml.unhexF (if lb == "-" then "" else lb)
     let jm ← decJidMap jm
-    let toks ← XmppModel.Xml.decToks toks
+    let toks ← (XmppModel.Xml.decToks toks).map (wsInput ws)
     let p ← decProg prog
     let cfg : Cfg := { ns := ns, localBare := lb, jidCanon := jidOracle jm }
     let eff ←
